@@ -625,6 +625,9 @@ impl<T: Read + Seek, D: Read + Seek> Reader<T, D> {
     /// Seeks to the start of the shape at `index`
     pub fn seek(&mut self, index: usize) -> Result<(), Error> {
         self.shape_reader.seek(index)?;
+        // Past the last shape every index means "the end": the .dbf reader computes
+        // a byte offset from the index, which overflows for huge values.
+        let index = index.min(self.shape_reader.shape_count()?);
         self.dbase_reader.seek(index)?;
         Ok(())
     }
